@@ -1,3 +1,559 @@
-(* C04 - lemmas (in progress). *)
+(* C04 - lemmas: the buffered reader's line/take requests are functions of the pending
+   byte stream; reader programs without buffer-sensitive reads see only the stream. *)
 From HT Require Import Common.Bytes C04.Model.
+From Coq Require Import ZifyBool ZifyN ZifyNat.
 Open Scope nat_scope.
+
+(* ---- the connection ---- *)
+Lemma read_raw_inv c n : let '(b, c') := read_raw c n in b ++ concat c' = concat c.
+Proof.
+  destruct c as [|s r]; cbn [read_raw]; [reflexivity|].
+  destruct (skipn n s) as [|x rest] eqn:E; cbn [concat].
+  - rewrite <- (firstn_skipn n s) at 2. rewrite E, app_nil_r. reflexivity.
+  - rewrite app_assoc. rewrite <- E, firstn_skipn. reflexivity.
+Qed.
+
+Lemma BUFSZ_pos : 0 < BUFSZ.
+Proof. unfold BUFSZ. lia. Qed.
+
+Lemma fill_pending r : pending (fill r) = pending r.
+Proof.
+  unfold fill, pending. pose proof (read_raw_inv (rsrc r) (BUFSZ - length (rbuf r))) as H.
+  destruct (read_raw (rsrc r) (BUFSZ - length (rbuf r))) as [b s]. cbn [rbuf rsrc].
+  rewrite <- app_assoc, H. reflexivity.
+Qed.
+
+(* one underlying read moves n0 >= 1 bytes (or removes an empty segment) *)
+Lemma read_raw_measure c n :
+  0 < n -> c <> [] ->
+  let '(b, c') := read_raw c n in
+  length (concat c) = length b + length (concat c') /\
+  (length b + length c' < 2 * length b + length c).
+Proof.
+  intros Hn Hc. destruct c as [|s r]; [congruence|]. cbn [read_raw].
+  destruct (skipn n s) as [|x rest] eqn:E; cbn [concat length]; rewrite ?app_length.
+  - assert (Hs : firstn n s = s).
+    { rewrite <- (firstn_skipn n s) at 2. rewrite E, app_nil_r. reflexivity. }
+    rewrite Hs. split; lia.
+  - assert (Hl : length (firstn n s) = n).
+    { rewrite firstn_length. assert (length (skipn n s) <> 0) by (rewrite E; cbn; lia).
+      rewrite skipn_length in H. lia. }
+    rewrite <- E. split.
+    + rewrite <- (firstn_skipn n s) at 1. rewrite app_length. lia.
+    + rewrite Hl. cbn [length]. lia.
+Qed.
+
+(* ---- split at the delimiter ---- *)
+Lemma split_delim_app d l : split_delim d l = None \/ exists a b, split_delim d l = Some (a, b) /\ l = a ++ b.
+Proof.
+  induction l as [|x l IH]; cbn [split_delim]; [left; reflexivity|].
+  destruct (beq x d); [right; exists [x], l; split; reflexivity|].
+  destruct IH as [->|(a & b & -> & ->)]; [left; reflexivity|].
+  right. exists (x :: a), b. split; reflexivity.
+Qed.
+
+Lemma split_delim_some_app d x y a b :
+  split_delim d x = Some (a, b) -> split_delim d (x ++ y) = Some (a, b ++ y).
+Proof.
+  revert a b. induction x as [|c x IH]; intros a b; cbn [split_delim app]; [discriminate|].
+  destruct (beq c d); [intros H; inversion H; reflexivity|].
+  destruct (split_delim d x) as [[a0 b0]|]; [|discriminate].
+  intros H; injection H as <- <-. rewrite (IH a0 b0 eq_refl). reflexivity.
+Qed.
+
+Lemma split_delim_none_app d x y :
+  split_delim d x = None ->
+  split_delim d (x ++ y) = match split_delim d y with Some (a, b) => Some (x ++ a, b) | None => None end.
+Proof.
+  induction x as [|c x IH]; cbn [split_delim app]; intros H.
+  - destruct (split_delim d y) as [[a b]|]; reflexivity.
+  - destruct (beq c d); [discriminate|].
+    destruct (split_delim d x) as [[a0 b0]|]; [discriminate|].
+    rewrite (IH eq_refl). destruct (split_delim d y) as [[a b]|]; reflexivity.
+Qed.
+
+(* ---- ReadBytes / ReadString ---- *)
+Lemma r_until_f_spec fuel d : forall acc r res r',
+  r_until_f fuel d acc r = Some (res, r') ->
+  match split_delim d (pending r) with
+  | Some (a, b) => res = RLine (acc ++ a) /\ pending r' = b
+  | None => res = REof (acc ++ pending r) /\ pending r' = []
+  end.
+Proof.
+  induction fuel as [|f IH]; intros acc r res r' H; cbn [r_until_f] in H; [discriminate|].
+  unfold pending at 1.
+  destruct (split_delim d (rbuf r)) as [[a b]|] eqn:Eb.
+  - inversion H; subst. rewrite (split_delim_some_app _ _ _ _ _ Eb). split; reflexivity.
+  - rewrite (split_delim_none_app _ _ _ Eb).
+    destruct (rsrc r) as [|s0 rest] eqn:Es.
+    + inversion H; subst. cbn [concat split_delim]. unfold pending. rewrite Es. cbn [concat rbuf rsrc].
+      rewrite app_nil_r. split; reflexivity.
+    + rewrite <- Es in *. destruct (BUFSZ <=? length (rbuf r)).
+      * apply IH in H. unfold pending in H at 1. cbn [rbuf rsrc app] in H.
+        destruct (split_delim d (concat (rsrc r))) as [[a b]|].
+        -- destruct H as [-> ->]. rewrite app_assoc. split; reflexivity.
+        -- destruct H as [-> ->]. unfold pending. cbn [rbuf rsrc app]. rewrite app_assoc. split; reflexivity.
+      * apply IH in H. rewrite fill_pending in H. unfold pending in H at 1.
+        rewrite (split_delim_none_app _ _ _ Eb) in H.
+        destruct (split_delim d (concat (rsrc r))) as [[a b]|]; exact H.
+Qed.
+
+Lemma fill_until_measure r :
+  rsrc r <> [] -> length (rbuf r) < BUFSZ -> until_measure (fill r) < until_measure r.
+Proof.
+  intros Hs Hb. unfold fill, until_measure.
+  pose proof (read_raw_measure (rsrc r) (BUFSZ - length (rbuf r)) ltac:(lia) Hs) as H.
+  destruct (read_raw (rsrc r) (BUFSZ - length (rbuf r))) as [b s]. cbn [rbuf rsrc].
+  rewrite app_length. lia.
+Qed.
+
+Lemma r_until_f_enough fuel d : forall acc r, until_measure r < fuel -> r_until_f fuel d acc r <> None.
+Proof.
+  induction fuel as [|f IH]; intros acc r Hm; [lia|]. cbn [r_until_f].
+  destruct (split_delim d (rbuf r)) as [[a b]|]; [discriminate|].
+  destruct (rsrc r) as [|s0 rest] eqn:Es; [discriminate|]. rewrite <- Es.
+  destruct (BUFSZ <=? length (rbuf r)) eqn:Ef.
+  - apply IH. unfold until_measure in *. cbn [rbuf rsrc length]. pose proof BUFSZ_pos. lia.
+  - apply IH. assert (rsrc r <> []) by (rewrite Es; discriminate).
+    pose proof (fill_until_measure r H). lia.
+Qed.
+
+Lemma r_until_spec d r :
+  let '(res, r') := r_until d r in s_until d (pending r) = (res, pending r').
+Proof.
+  unfold r_until. destruct (r_until_f (S (until_measure r)) d [] r) as [[res r']|] eqn:E.
+  - apply r_until_f_spec in E. unfold s_until.
+    destruct (split_delim d (pending r)) as [[a b]|]; destruct E as [-> ->]; reflexivity.
+  - exfalso. eapply r_until_f_enough; [|exact E]. lia.
+Qed.
+
+(* ---- consuming exactly n bytes ---- *)
+Lemma firstn_app_le {A} n (a b : list A) : n <= length a -> firstn n (a ++ b) = firstn n a.
+Proof.
+  intros H. rewrite firstn_app. replace (n - length a) with 0 by lia. cbn [firstn]. apply app_nil_r.
+Qed.
+Lemma skipn_app_le {A} n (a b : list A) : n <= length a -> skipn n (a ++ b) = skipn n a ++ b.
+Proof.
+  intros H. rewrite skipn_app. replace (n - length a) with 0 by lia. reflexivity.
+Qed.
+Lemma firstn_app_gt {A} n (a b : list A) : length a <= n -> firstn n (a ++ b) = a ++ firstn (n - length a) b.
+Proof. intros H. rewrite firstn_app, firstn_all2 by lia. reflexivity. Qed.
+Lemma skipn_app_gt {A} n (a b : list A) : length a <= n -> skipn n (a ++ b) = skipn (n - length a) b.
+Proof. intros H. rewrite skipn_app, skipn_all2 by lia. reflexivity. Qed.
+
+Lemma r_take_f_spec fuel : forall n acc r x r',
+  r_take_f fuel n acc r = Some (x, r') ->
+  x = acc ++ firstn n (pending r) /\ pending r' = skipn n (pending r).
+Proof.
+  induction fuel as [|f IH]; intros n acc r x r' H; cbn [r_take_f] in H; [discriminate|].
+  destruct (n <=? length (rbuf r)) eqn:En.
+  - inversion H; subst. unfold pending. cbn [rbuf rsrc].
+    rewrite firstn_app_le, skipn_app_le by lia. split; reflexivity.
+  - destruct (rsrc r) as [|s0 rest] eqn:Es.
+    + inversion H; subst. unfold pending. rewrite Es. cbn [concat rbuf rsrc]. rewrite !app_nil_r.
+      rewrite firstn_all2, skipn_all2 by lia. split; reflexivity.
+    + rewrite <- Es in *. apply IH in H. rewrite fill_pending in H.
+      unfold pending in *. cbn [rbuf rsrc app] in *.
+      rewrite firstn_app_gt, skipn_app_gt by lia. destruct H as [-> ->].
+      rewrite app_assoc. split; reflexivity.
+Qed.
+
+Lemma fill_take_measure s : s <> [] -> take_measure (fill (mkRd [] s)) < take_measure (mkRd [] s).
+Proof.
+  intros Hs. unfold fill, take_measure. cbn [rbuf rsrc length].
+  pose proof (read_raw_measure s (BUFSZ - 0) ltac:(pose proof BUFSZ_pos; lia) Hs) as H.
+  destruct (read_raw s (BUFSZ - 0)) as [b s']. cbn [rbuf rsrc]. lia.
+Qed.
+
+Lemma r_take_f_enough fuel : forall n acc r, take_measure r < fuel -> r_take_f fuel n acc r <> None.
+Proof.
+  induction fuel as [|f IH]; intros n acc r Hm; [lia|]. cbn [r_take_f].
+  destruct (n <=? length (rbuf r)); [discriminate|].
+  destruct (rsrc r) as [|s0 rest] eqn:Es; [discriminate|]. rewrite <- Es.
+  apply IH. assert (rsrc r <> []) by (rewrite Es; discriminate).
+  pose proof (fill_take_measure (rsrc r) H). unfold take_measure in *. cbn [rbuf rsrc] in *. lia.
+Qed.
+
+Lemma r_take_spec n r :
+  let '(x, r') := r_take n r in x = firstn n (pending r) /\ pending r' = skipn n (pending r).
+Proof.
+  unfold r_take. destruct (r_take_f (S (take_measure r)) n [] r) as [[x r']|] eqn:E.
+  - apply r_take_f_spec in E. exact E.
+  - exfalso. eapply r_take_f_enough; [|exact E]. lia.
+Qed.
+
+(* ---- one Read: a prefix of the stream, never more than asked ---- *)
+Lemma r_read_inv n r :
+  let '(b, r') := r_read n r in b ++ pending r' = pending r /\ length b <= n.
+Proof.
+  unfold r_read. destruct (rbuf r) as [|x buf] eqn:Eb.
+  - destruct (BUFSZ <=? n).
+    + pose proof (read_raw_inv (rsrc r) n) as H. destruct (read_raw (rsrc r) n) as [b s] eqn:Er.
+      unfold pending. rewrite Eb. cbn [rbuf rsrc app]. split; [exact H|].
+      destruct (rsrc r) as [|s0 rest]; cbn [read_raw] in Er.
+      * inversion Er; cbn; lia.
+      * destruct (skipn n s0); inversion Er; rewrite firstn_length; lia.
+    + pose proof (fill_pending r) as H. unfold pending in *. rewrite <- H.
+      rewrite app_assoc, firstn_skipn. split; [reflexivity|]. rewrite firstn_length. lia.
+  - unfold pending. cbn [rbuf rsrc]. rewrite Eb, app_assoc, firstn_skipn.
+    split; [reflexivity|]. rewrite firstn_length. lia.
+Qed.
+
+(* ------------------------------------------------------------------ *)
+(* reader programs                                                     *)
+(* ------------------------------------------------------------------ *)
+(* whenever the run over the stream executed no buffer-sensitive Read and the run over the
+   segments dropped no buffered byte, both runs report the same events and return code *)
+Lemma run_sound p : forall r es c d es' c' ok,
+  run_seg p r = (es, c, d) -> run_str p (pending r) = (es', c', ok) ->
+  d = [] -> ok = true -> es = es' /\ c = c'.
+Proof.
+  induction p as [code|e k IH|dl k IH|n k IH|n k IH|k IH]; intros r es c d es' c' ok Hs Ht Hd Hok;
+    cbn [run_seg run_str] in Hs, Ht.
+  - inversion Hs; inversion Ht; subst; split; reflexivity.
+  - destruct (run_seg k r) as [[es0 c0] d0] eqn:E1. destruct (run_str k (pending r)) as [[es1 c1] ok1] eqn:E2.
+    inversion Hs; inversion Ht; subst.
+    destruct (IH _ _ _ _ _ _ _ E1 E2 eq_refl eq_refl) as [-> ->]. split; reflexivity.
+  - pose proof (r_until_spec dl r) as Hu. destruct (r_until dl r) as [res r'].
+    rewrite Hu in Ht. eapply IH; eauto.
+  - pose proof (r_take_spec n r) as Hu. destruct (r_take n r) as [x r']. destruct Hu as [-> Hp].
+    rewrite <- Hp in Ht. eapply IH; eauto.
+  - destruct (run_str (k (firstn n (pending r))) (skipn n (pending r))) as [[es1 c1] ok1].
+    injection Ht as <- <- <-. discriminate.
+  - destruct (run_seg k (mkRd [] (rsrc r))) as [[es0 c0] d0] eqn:E1.
+    injection Hs as <- <- <-. apply app_eq_nil in Hd as [Hb Hd0].
+    assert (Hp : pending (mkRd [] (rsrc r)) = pending r) by (unfold pending; rewrite Hb; reflexivity).
+    rewrite <- Hp in Ht. eapply IH; eauto.
+Qed.
+
+(* programs that only ever ask for delimited lines and exact byte counts on ONE reader *)
+Inductive persistent : prog -> Prop :=
+| per_done c : persistent (PDone c)
+| per_emit e k : persistent k -> persistent (PEmit e k)
+| per_until d k : (forall res, persistent (k res)) -> persistent (PUntil d k)
+| per_take n k : (forall b, persistent (k b)) -> persistent (PTake n k).
+
+Lemma persistent_run p : persistent p ->
+  forall r, run_seg p r = (fst (str_obs p (pending r)), snd (str_obs p (pending r)), []).
+Proof.
+  unfold str_obs. induction 1 as [c|e k Hk IH|d k Hk IH|n k Hk IH]; intros r; cbn [run_seg run_str].
+  - reflexivity.
+  - rewrite IH. destruct (run_str k (pending r)) as [[es c] ok]. reflexivity.
+  - pose proof (r_until_spec d r) as Hu. destruct (r_until d r) as [res r']. rewrite Hu. apply IH.
+  - pose proof (r_take_spec n r) as Hu. destruct (r_take n r) as [x r']. destruct Hu as [-> Hp].
+    rewrite <- Hp. apply IH.
+Qed.
+
+Lemma persistent_obs p c : persistent p -> seg_obs p c = str_obs p (concat c).
+Proof.
+  intros H. unfold seg_obs. rewrite (persistent_run p H). unfold pending, new_reader. cbn [rbuf rsrc app].
+  destruct (str_obs p (concat c)); reflexivity.
+Qed.
+
+Lemma persistent_nothing_dropped p c : persistent p -> seg_dropped p c = [].
+Proof. intros H. unfold seg_dropped. rewrite (persistent_run p H). reflexivity. Qed.
+
+Lemma persistent_clean p : persistent p -> forall s, str_clean p s = true.
+Proof.
+  unfold str_clean. induction 1 as [c|e k Hk IH|d k Hk IH|n k Hk IH]; intros s; cbn [run_str].
+  - reflexivity.
+  - specialize (IH s). destruct (run_str k s) as [[es c] ok]. exact IH.
+  - destruct (s_until d s) as [res s']. apply IH.
+  - apply IH.
+Qed.
+
+(* the generic theorem: for a persistent reader the events depend only on the concatenation *)
+Lemma persistent_segmentation_invariant p c1 c2 :
+  persistent p -> concat c1 = concat c2 -> seg_obs p c1 = seg_obs p c2.
+Proof. intros H E. rewrite !persistent_obs by exact H. rewrite E. reflexivity. Qed.
+
+(* the general form, for programs with Reads and fresh readers: outside the two loss mechanisms *)
+Lemma clean_lossless_obs p c :
+  str_clean p (concat c) = true -> seg_dropped p c = [] -> seg_obs p c = str_obs p (concat c).
+Proof.
+  unfold str_clean, seg_dropped, seg_obs, str_obs. intros Hc Hd.
+  destruct (run_seg p (new_reader c)) as [[es cd] d] eqn:E1.
+  assert (Hp : pending (new_reader c) = concat c) by reflexivity.
+  destruct (run_str p (concat c)) as [[es' cd'] ok] eqn:E2. rewrite <- Hp in E2.
+  destruct (run_sound p _ _ _ _ _ _ _ E1 E2 Hd Hc) as [-> ->]. reflexivity.
+Qed.
+
+(* ---- the services with one persistent reader ---- *)
+Ltac per_step :=
+  match goal with
+  | |- persistent (PDone _) => constructor
+  | |- persistent (PEmit _ _) => constructor
+  | |- persistent (PUntil _ _) => constructor; intros ?
+  | |- persistent (PTake _ _) => constructor; intros ?
+  | |- persistent (PScan _) => unfold PScan; constructor; intros ?
+  | |- persistent (match ?x with _ => _ end) => destruct x
+  | |- persistent (if ?x then _ else _) => destruct x
+  | |- persistent (let '(_, _) := ?x in _) => destruct x
+  end.
+
+Lemma ftp_persistent fuel : persistent (ftp_prog fuel).
+Proof. induction fuel as [|f IH]; cbn [ftp_prog]; repeat per_step; exact IH. Qed.
+
+Lemma dot_persistent fuel : forall st acc k,
+  (forall r, persistent (k r)) -> persistent (dot_prog fuel st acc k).
+Proof.
+  induction fuel as [|f IH]; intros st acc k Hk; cbn [dot_prog]; [constructor|].
+  constructor. intros b. destruct b as [|c b']; [apply Hk|].
+  destruct (dot_step st c) as [[st' out] fin]. destruct fin; [apply Hk|apply IH; exact Hk].
+Qed.
+
+Lemma smtp_persistent fuel : forall st i buf, persistent (smtp_prog fuel st i buf).
+Proof.
+  induction fuel as [|f IH]; intros st i buf; cbn [smtp_prog]; [constructor|].
+  constructor. intros res. destruct (tp_line res) as [line|]; [|constructor].
+  constructor. destruct st.
+  - repeat per_step; apply IH.
+  - repeat per_step; apply IH.
+  - repeat (first [apply IH | apply dot_persistent; intros ? | per_step]).
+Qed.
+
+Lemma redis_persistent fuel : forall stack, persistent (redis_prog fuel stack).
+Proof.
+  induction fuel as [|f IH]; intros stack; cbn [redis_prog]; [constructor|].
+  assert (Hfin : forall d, persistent
+    match deliver d stack with
+    | inr stack' => redis_prog f stack'
+    | inl top =>
+        match top with
+        | DScalar 0%N _ => redis_prog f []
+        | DScalar _ _ => PDone 0
+        | DArr [] => PDone 2
+        | DArr (DScalar ty s :: _) =>
+            if beq ty 43%N || beq ty 36%N then PEmit (mkEv EV_REDIS [s]) (redis_prog f []) else PDone 0
+        | DArr (DArr _ :: _) => PDone 0
+        end
+    end).
+  { intros d. repeat (first [apply IH | per_step]). }
+  repeat (first [apply Hfin | apply IH | per_step]).
+Qed.
+
+(* the reference framings are persistent as well: the reference reading is well defined *)
+Lemma memcached_ideal_persistent udp fuel : persistent (memcached_prog true udp fuel).
+Proof. induction fuel as [|f IH]; cbn [memcached_prog]; repeat (first [exact IH | per_step]). Qed.
+
+Lemma http_headers_persistent fuel : forall host cl k,
+  (forall h, persistent (k h)) -> persistent (http_headers fuel host cl k).
+Proof.
+  induction fuel as [|f IH]; intros host cl k Hk; cbn [http_headers]; [constructor|].
+  repeat (first [apply Hk | apply IH; exact Hk | per_step]).
+Qed.
+
+Lemma http_discard_ideal_persistent fuel : forall rem k,
+  persistent k -> persistent (http_discard true fuel rem k).
+Proof.
+  induction fuel as [|f IH]; intros rem k Hk; cbn [http_discard]; [constructor|].
+  destruct rem; [exact Hk|]. constructor. intros b. destruct b; [exact Hk|apply IH; exact Hk].
+Qed.
+
+Lemma http_ideal_persistent cfg fuel : persistent (http_prog cfg true fuel).
+Proof.
+  induction fuel as [|f IH]; cbn [http_prog]; [constructor|].
+  constructor. intros res. destruct (tp_line res) as [line|]; [|constructor].
+  destruct (cut SP line) as [m [rest|]]; [|constructor].
+  destruct (cut SP rest) as [u [p|]]; [|constructor].
+  destruct (negb (request_line_ok m u p)); [constructor|].
+  apply http_headers_persistent. intros h.
+  assert (Hagain : persistent (if h_loop cfg then http_prog cfg true f else PDone 0))
+    by (destruct (h_loop cfg); [exact IH|constructor]).
+  repeat (first [exact Hagain | apply http_discard_ideal_persistent | per_step]).
+Qed.
+
+(* ---- per service: the code's events are the reference reading of concat segs ---- *)
+Lemma ftp_run c : run_impl SVC_FTP c = expected SVC_FTP (concat c).
+Proof. unfold run_impl, expected. apply persistent_obs. apply ftp_persistent. Qed.
+
+Lemma smtp_run c : run_impl SVC_SMTP c = expected SVC_SMTP (concat c).
+Proof. unfold run_impl, expected. apply persistent_obs. apply smtp_persistent. Qed.
+
+Lemma redis_run c : run_impl SVC_REDIS c = expected SVC_REDIS (concat c).
+Proof. unfold run_impl, expected. apply persistent_obs. apply redis_persistent. Qed.
+
+(* one request per connection, body read to its end (eos, ethereum): the only fresh reader is
+   the first one, created before anything was buffered *)
+Lemma http_single_readall_is_ideal e fuel :
+  http_prog (mkHttp false BReadAll e) false (S fuel) = PNewReader (http_prog (mkHttp false BReadAll e) true (S fuel)).
+Proof. reflexivity. Qed.
+
+Lemma http_single_readall_run e fuel c :
+  seg_obs (http_prog (mkHttp false BReadAll e) false fuel) c =
+  str_obs (http_prog (mkHttp false BReadAll e) true fuel) (concat c).
+Proof.
+  destruct fuel as [|f]; [reflexivity|]. rewrite http_single_readall_is_ideal.
+  pose proof (persistent_obs _ c (http_ideal_persistent (mkHttp false BReadAll e) (S f))) as H.
+  unfold seg_obs in *. cbn [run_seg]. unfold new_reader in *. cbn [rbuf rsrc] in *.
+  destruct (run_seg (http_prog (mkHttp false BReadAll e) true (S f)) (mkRd [] c)) as [[es cd] d].
+  exact H.
+Qed.
+
+Lemma eos_run c : run_impl SVC_EOS c = expected SVC_EOS (concat c).
+Proof. unfold run_impl, expected. apply http_single_readall_run. Qed.
+
+Lemma ethereum_run c : run_impl SVC_ETHEREUM c = expected SVC_ETHEREUM (concat c).
+Proof. unfold run_impl, expected. apply http_single_readall_run. Qed.
+
+(* ---- datagram services: the first Read sees the whole datagram (up to the buffer) ---- *)
+Lemma first_read_of_datagram n d k :
+  n <= BUFSZ -> (forall b, persistent (k b)) ->
+  seg_obs (PRead n k) [d] = str_obs (PTake n k) d.
+Proof.
+  intros Hn Hk. unfold seg_obs, str_obs. cbn [run_seg run_str].
+  pose proof (r_read_inv n (new_reader [d])) as Hinv.
+  assert (Hb : fst (r_read n (new_reader [d])) = firstn n d).
+  { unfold r_read, new_reader. cbn [rbuf rsrc]. destruct (BUFSZ <=? n) eqn:E.
+    - cbn [read_raw]. destruct (skipn n d); reflexivity.
+    - unfold fill. cbn [rbuf rsrc length read_raw]. rewrite Nat.sub_0_r.
+      destruct (skipn BUFSZ d); cbn [fst rbuf app]; rewrite firstn_firstn; f_equal; lia. }
+  destruct (r_read n (new_reader [d])) as [b r'] eqn:E. cbn [fst] in Hb. subst b.
+  destruct Hinv as [Hinv _]. unfold pending at 2 in Hinv. unfold new_reader in Hinv. cbn [rbuf rsrc concat app] in Hinv.
+  rewrite app_nil_r in Hinv.
+  assert (Hinv' : firstn n d ++ pending r' = firstn n d ++ skipn n d) by (rewrite firstn_skipn; exact Hinv).
+  apply app_inv_head in Hinv'. clear Hinv. rename Hinv' into Hinv.
+  rewrite (persistent_run _ (Hk (firstn n d))). rewrite Hinv. unfold str_obs.
+  destruct (run_str (k (firstn n d)) (skipn n d)) as [[es c] ok]. reflexivity.
+Qed.
+
+Lemma tftp_tail_persistent op : persistent
+  (match op with
+   | [_; o] =>
+       if beq o 1%N || beq o 2%N then
+         PUntil 0%N (fun r1 =>
+           match r1 with
+           | REof _ => PDone 1
+           | RLine fname =>
+               PUntil 0%N (fun r2 =>
+                 match r2 with
+                 | REof _ => PDone 1
+                 | RLine mode => PEmit (mkEv (if beq o 1%N then EV_TFTP_READ else EV_TFTP_WRITE) [fname; mode]) (PDone 0)
+                 end)
+           end)
+       else PDone 0
+   | [_] => PDone 0
+   | _ => PDone 0
+   end).
+Proof. repeat per_step. Qed.
+
+Lemma tftp_datagram d : run_impl SVC_TFTP [d] = expected SVC_TFTP d.
+Proof.
+  unfold run_impl, expected. change (impl_prog SVC_TFTP (fuel_for (concat [d]))) with (tftp_prog false).
+  change (spec_prog SVC_TFTP (fuel_for d)) with (tftp_prog true). unfold tftp_prog.
+  apply first_read_of_datagram; [unfold BUFSZ; lia|]. intros b. apply tftp_tail_persistent.
+Qed.
+
+Lemma cs_datagram d : run_impl SVC_CS [d] = expected SVC_CS d.
+Proof.
+  unfold run_impl, expected. change (impl_prog SVC_CS (fuel_for (concat [d]))) with (cs_prog false).
+  change (spec_prog SVC_CS (fuel_for d)) with (cs_prog true). unfold cs_prog.
+  apply first_read_of_datagram; [unfold BUFSZ; lia|]. intros b. repeat per_step.
+Qed.
+
+(* dns behind the server's timeout wrapper: the type test fails, nothing is ever reported *)
+Lemma dns_wrapped_silent c : run_impl SVC_DNS c = ([], 0%N).
+Proof. reflexivity. Qed.
+
+(* ---- ftp, declaratively: one event per complete line, in order, up to QUIT ---- *)
+Fixpoint lines_f (fuel : nat) (s : bytes) : list bytes :=
+  match fuel with
+  | O => []
+  | S f => match split_delim LF s with
+           | Some (a, b) => a :: lines_f f b
+           | None => []
+           end
+  end.
+
+Fixpoint ftp_events (ls : list bytes) : list event :=
+  match ls with
+  | [] => []
+  | l :: r => mkEv EV_FTP [trim_both is_crlf l] ::
+              (if eqb_bytes (ftp_command l) QUIT then [] else ftp_events r)
+  end.
+
+Lemma ftp_events_spec fuel : forall s,
+  fst (str_obs (ftp_prog fuel) s) = ftp_events (lines_f fuel s).
+Proof.
+  unfold str_obs. induction fuel as [|f IH]; intros s; cbn [ftp_prog lines_f run_str]; [reflexivity|].
+  unfold s_until. destruct (split_delim LF s) as [[a b]|]; cbn [run_str ftp_events fst]; [|reflexivity].
+  destruct (eqb_bytes (ftp_command a) QUIT).
+  - reflexivity.
+  - specialize (IH b). destruct (run_str (ftp_prog f) b) as [[es c] ok]. cbn [fst] in *. rewrite IH. reflexivity.
+Qed.
+
+Lemma split_delim_shorter d s a b : split_delim d s = Some (a, b) -> length b < length s.
+Proof.
+  revert a b. induction s as [|x s IH]; intros a b; cbn [split_delim]; [discriminate|].
+  destruct (beq x d); [intros H; injection H as <- <-; cbn; lia|].
+  destruct (split_delim d s) as [[a0 b0]|]; [|discriminate].
+  intros H; injection H as <- <-. specialize (IH a0 b0 eq_refl). cbn [length]. lia.
+Qed.
+
+(* the fuel used by run_impl/expected is enough: ftp never ends "out of fuel" *)
+Lemma ftp_fuel_enough fuel : forall s, length s < fuel -> snd (str_obs (ftp_prog fuel) s) = 0%N.
+Proof.
+  unfold str_obs. induction fuel as [|f IH]; intros s Hl; [lia|]. cbn [ftp_prog run_str].
+  unfold s_until. destruct (split_delim LF s) as [[a b]|] eqn:E; cbn [run_str snd]; [|reflexivity].
+  destruct (eqb_bytes (ftp_command a) QUIT); [reflexivity|].
+  apply split_delim_shorter in E. specialize (IH b ltac:(lia)).
+  destruct (run_str (ftp_prog f) b) as [[es c] ok]. exact IH.
+Qed.
+
+(* the lines are exactly the newline-terminated pieces of the stream, nothing else is left *)
+Lemma lines_f_partition fuel : forall s, length s < fuel ->
+  exists tail, s = concat (lines_f fuel s) ++ tail /\ split_delim LF tail = None.
+Proof.
+  induction fuel as [|f IH]; intros s Hl; [lia|]. cbn [lines_f].
+  destruct (split_delim LF s) as [[a b]|] eqn:E.
+  - pose proof (split_delim_shorter _ _ _ _ E) as Hb.
+    destruct (IH b ltac:(lia)) as (tail & Hs & Ht). exists tail. split; [|exact Ht].
+    cbn [concat]. rewrite <- app_assoc, <- Hs.
+    destruct (split_delim_app LF s) as [Hn|(a' & b' & Hs' & Heq)]; [congruence|].
+    rewrite E in Hs'. injection Hs' as <- <-. exact Heq.
+  - exists s. split; [reflexivity|exact E].
+Qed.
+
+(* ------------------------------------------------------------------ *)
+(* the property at full strength, and the witnesses of its failures    *)
+(* ------------------------------------------------------------------ *)
+Definition C04_full (svc : N) : Prop := forall segs, run_impl svc segs = expected svc (concat segs).
+
+Lemma persistent_reads_the_stream p segs :
+  persistent p -> seg_obs p segs = str_obs p (concat segs) /\ seg_dropped p segs = [].
+Proof. intros H. split; [exact (persistent_obs p segs H)|exact (persistent_nothing_dropped p segs H)]. Qed.
+
+Definition W_MC : bytes := [115;101;116;32;107;32;48;32;48;32;51;13;10;97;98;99;13;10;103;101;116;32;107;13;10]%N.
+Definition W_GET_A : bytes := [71;69;84;32;47;97;32;72;84;84;80;47;49;46;49;13;10;72;111;115;116;58;32;104;13;10;13;10]%N.
+Definition W_GET_B : bytes := [71;69;84;32;47;98;32;72;84;84;80;47;49;46;49;13;10;72;111;115;116;58;32;104;13;10;13;10]%N.
+Definition W_POST_HEAD : bytes := [80;79;83;84;32;47;112;32;72;84;84;80;47;49;46;49;13;10;72;111;115;116;58;32;104;13;10;67;111;110;116;101;110;116;45;76;101;110;103;116;104;58;32;54;13;10;13;10]%N.
+Definition W_DNS : bytes := [18;52;1;0;0;1;0;0;0;0;0;0;1;120;0;0;1;0;1]%N.
+
+Lemma memcached_storage_refuted :
+  exists s1 s2, concat s1 = concat s2 /\ run_impl SVC_MEMCACHED s1 <> run_impl SVC_MEMCACHED s2 /\
+                run_impl SVC_MEMCACHED s1 <> expected SVC_MEMCACHED (concat s1) /\
+                run_impl SVC_MEMCACHED s2 <> expected SVC_MEMCACHED (concat s2).
+Proof.
+  exists [W_MC], [firstn 16 W_MC; skipn 16 W_MC].
+  split; [reflexivity|]. repeat split; vm_compute; discriminate.
+Qed.
+
+Lemma http_pipelined_refuted :
+  exists s1 s2, concat s1 = concat s2 /\
+    length (fst (run_impl SVC_HTTP s1)) = 1 /\ length (fst (run_impl SVC_HTTP s2)) = 2 /\
+    length (fst (expected SVC_HTTP (concat s1))) = 2 /\ seg_dropped (impl_prog SVC_HTTP (fuel_for (concat s1))) s1 = W_GET_B.
+Proof.
+  exists [W_GET_A ++ W_GET_B], [W_GET_A; W_GET_B]. repeat split; vm_compute; reflexivity.
+Qed.
+
+Lemma http_body_refuted :
+  exists s1 s2, concat s1 = concat s2 /\ run_impl SVC_HTTP s1 <> run_impl SVC_HTTP s2 /\
+                run_impl SVC_HTTP s1 = expected SVC_HTTP (concat s1).
+Proof.
+  exists [W_POST_HEAD ++ [97;98;99;100;101;102]%N], [W_POST_HEAD ++ [97;98;99]%N; [100;101;102]%N].
+  split; [vm_compute; reflexivity|]. split; [vm_compute; discriminate|vm_compute; reflexivity].
+Qed.
+
+Lemma dns_refuted :
+  run_impl SVC_DNS [W_DNS] <> expected SVC_DNS W_DNS /\ run_impl SVC_DNS_BARE [W_DNS] = expected SVC_DNS W_DNS.
+Proof. split; [vm_compute; discriminate|vm_compute; reflexivity]. Qed.
